@@ -75,6 +75,14 @@ static void net_eval(const cs_vna *v, int variant, double f, int sys,
     double lk_mag = variant == 2 ? 0.05 : variant == 3 ? 1e-4 : 0.02;
 
     memset(n, 0, sizeof(*n));
+    if (variant == 4) {
+	/* the ideal instrument: what is measured is the S matrix itself */
+	for (int r = 0; r < v->rows; ++r)
+	    n->Er[r * P + r] = 1.0;
+	for (int c = 0; c < v->cols; ++c)
+	    n->Et[c * P + c] = 1.0;
+	return;
+    }
     for (int r = 0; r < v->rows; ++r) {
 	for (int c = 0; c < v->cols; ++c) {
 	    coef_t k = coef(v, variant, sys, 0, r, c,
